@@ -168,6 +168,24 @@ def literal_modules(start, tier):
 '''
             mods.append(Module(f'm{n:04d}', f'`Default{form}` with $e:{frag} = `{expr}` forwarded by a user macro_rules (None-delimited group)', body, [h], sample=dict(type_definition=decl), functions=FUNCTIONS))
             n += 1
+    # a forwarded fragment used as an *operand* of the user's expression (`$e * 2` with `$e = 1 + BASE`): the fragment's grouping is part of
+    # the expression the user wrote (4 + ... , not 1 + BASE * 2), at field level (three spellings) and at type level
+    decl = ('pub const BASE: u8 = 4;\nmacro_rules! mk {\n    ($e:expr) => {\n        #[derive(Educe)]\n        #[educe(Default)]\n        pub struct Ty {\n'
+            '            #[educe(Default = $e * 2)]\n            pub a: u8,\n            #[educe(Default(expression = 100 - $e))]\n            pub b: u8,\n            #[educe(Default(expr($e * $e)))]\n            pub c: u8,\n        }\n'
+            '        #[derive(Educe)]\n        #[educe(Default(expression = Tl($e * 3, 7)))]\n        pub struct Tl(pub u8, pub u8);\n        pub const WANT: [u8; 4] = [$e * 2, 100 - $e, $e * $e, $e * 3];\n    };\n}\nmk!(1 + BASE);\n')
+    h = Harness('h_operand', unwind=4, covers=['reached'])
+    body = decl + h.attrs() + '''pub fn h_operand() {
+    let d = <Ty as Default>::default();
+    let t = <Tl as Default>::default();
+    kani::cover!(true, "reached");
+    assert!(WANT[0] == 10 && WANT[1] == 95 && WANT[2] == 25 && WANT[3] == 15);
+    assert!(d.a == WANT[0] && d.b == WANT[1] && d.c == WANT[2], "a forwarded `$e:expr` used as an operand lost its grouping (field level)");
+    assert!(t.0 == WANT[3] && t.1 == 7, "a forwarded `$e:expr` used as an operand lost its grouping (type level)");
+}
+'''
+    mods.append(Module(f'm{n:04d}', 'a forwarded $e:expr = `1 + BASE` used as an operand of the default expression (`$e * 2`, `100 - $e`, `$e * $e`, type-level `Tl($e * 3, 7)`)', body, [h], sample=dict(type_definition=decl), functions=FUNCTIONS,
+                       classes=['c08:forwarded-fragment-operand-grouping']))
+    n += 1
     # wide shapes: 13 fields (positions >= 10 sort before 2 as strings), tuple / named / enum variant; every position has its own value
     for shape in ('tuple', 'named', 'variant'):
         for mix in (False, True):
